@@ -47,6 +47,7 @@ func runC14(c *core.Ctx) {
 	c14Create(c, pkg)
 	c14Atomic(c, pkg)
 	c14ProbeRules(c, pkg)
+	c14Rules4(c, pkg)
 	c14Delete(c, pkg)
 	n := ruleTxErr(c, "C14.txerr", pkg, map[string]string{})
 	c.Floor("C14.txerr", "transaction-method error sites", n, 15)
